@@ -296,9 +296,9 @@ def sweep_configs(here, thorough=False):
     # of programs with different environments
     def app(name, n):
         return ('program:' + name,
-                [('command', '%(here)s/run.sh --app=' + name + ' --slot=%(process_num)d'),
+                [('command', '%(here)s/run.sh --app=' + name + ' --config %(here)s/srv.ini --lib=%(here)s/lib --slot=%(process_num)d'),
                  ('process_name', '%(program_name)s_%(process_num)d'), ('numprocs', str(n)),
-                 ('environment', 'APP_HOME="%(here)s",APP="' + name + '",SLOT="%(process_num)d"'),
+                 ('environment', 'APP_HOME="%(here)s",CONF="%(here)s/etc:%(here)s/lib",APP="' + name + '",SLOT="%(process_num)d"'),
                  ('stdout_logfile', '%(here)s/logs/%(program_name)s_%(process_num)d.out'),
                  ('stderr_logfile', '%(here)s/logs/%(program_name)s.err'),
                  ('directory', '%(here)s')])
@@ -689,6 +689,18 @@ def expansion_grid(here, thorough=False):
                     v = 'id-' + t
                 else:
                     v = t
+                out.append(('%s %s=%s' % (sec, opt, v), _set(b, sec, opt, v)))
+    strkeys = ('command', 'environment', 'directory', 'stdout_logfile', 'stderr_logfile', 'serverurl', 'process_name',
+               'identifier', 'logfile', 'socket')
+    for sec, rows in option_tables().items():
+        for opt, conv in rows:
+            if opt not in strkeys:
+                continue
+            for nm in ('F', 'X', 'Q'):
+                t = '%%(ENV_C14_%s)s' % nm
+                v = {'command': '/bin/x --fmt=' + t + ' --again ' + t, 'environment': 'K="%s",L="x"' % t,
+                     'process_name': 'p_%s_%%(process_num)d' % t, 'directory': '/tmp/' + t, 'serverurl': 'http://h/' + t,
+                     'identifier': 'id-' + t, 'socket': 'unix:///tmp/c14_%s.sock' % t}.get(opt, '/tmp/c14_%s.log' % t)
                 out.append(('%s %s=%s' % (sec, opt, v), _set(b, sec, opt, v)))
     for var in ['here', 'host_node_name', 'ENV', 'program_name', 'process_num']:
         c = copy.deepcopy(b)
